@@ -211,14 +211,14 @@ func (r *Report) finish(verifDir string) int {
 	for _, l := range lines {
 		fmt.Println(l)
 	}
+	if nviol > 0 {
+		return 1
+	}
 	if len(r.Floors) > 0 {
 		for _, f := range r.Floors {
 			fmt.Fprintf(os.Stderr, "ANALYSIS-INCOMPLETE: %s\n", f)
 		}
 		return 2
-	}
-	if nviol > 0 {
-		return 1
 	}
 	return 0
 }
